@@ -10,6 +10,7 @@ import (
 	"unicode/utf8"
 
 	"verif/harness/core"
+	"verif/harness/lat"
 	"verif/harness/sx"
 )
 
@@ -441,12 +442,21 @@ func emitFmt(g *core.G, ctx sx.Sexp, v sx.Sexp) {
 		in = mapValid(ctx) && modelled(v, entriesOfNoType(ctx.Args()), false)
 	case "mmap":
 		in = mapValid(ctx) && mergedModelled(v, entriesOfNoType(ctx.Args()))
+	case "tmap", "tmmap":
+		// which entry applies where is the lattice's business: the condition is global, as for mmap; the lattice model has no
+		// value of the kinds of the extended model beyond Timespan and Sensitive
+		in = mapValid(ctx) && mergedModelled(v, entriesOfNoType(ctx.Args())) && latValue(v)
+		line := "fmtt " + ctx.String() + " " + v.String()
+		if !in {
+			line = "@" + line
+		}
+		g.Emit(line)
+		return
 	}
 	op := "fmt "
-	if hasNewKind(v) || (mode == "map" && hasNewKey(entriesOfNoType(ctx.Args()))) {
-		// the extended model (every value kind; the per-type maps of the String constructor are not in it yet)
+	if hasNewKind(v) || ((mode == "map" || mode == "mmap") && hasNewKey(entriesOfNoType(ctx.Args()))) {
+		// the extended model (every value kind, the keys of every kind)
 		op = "fmtx "
-		in = in && mode != "mmap"
 	}
 	line := op + ctx.String() + " " + v.String()
 	if !in {
@@ -474,12 +484,20 @@ func mergedModelled(v sx.Sexp, m []entry) bool {
 					return false
 				}
 			}
-		case "h":
-			for _, kv := range e.Args() {
+		case "h", "o":
+			for _, kv := range entriesOfValue(e) {
 				if !okv(kv.List[0]) || !okv(kv.List[1]) {
 					return false
 				}
 			}
+		case "t":
+			for _, k := range e.Args()[2:] {
+				if !okv(k) {
+					return false
+				}
+			}
+		case "n":
+			return e.Args()[0].MustInt() != math.MinInt64
 		}
 		return true
 	}
@@ -501,6 +519,29 @@ func mergedModelled(v sx.Sexp, m []entry) bool {
 // a map with an invalid directive anywhere raises while the map is built; the model parses lazily — keep those impl-only
 func mapValid(ctx sx.Sexp) bool { return !anyInvalid(entriesOfNoType(ctx.Args())) }
 
+// latValue: only kinds the lattice model has values of (no Float: its digits are fmt's)
+func latValue(e sx.Sexp) bool {
+	switch e.Tag() {
+	case "f", "v", "w", "y", "m", "t", "o":
+		return false
+	case "z":
+		return latValue(e.Args()[0])
+	case "a":
+		for _, k := range e.Args() {
+			if !latValue(k) {
+				return false
+			}
+		}
+	case "h":
+		for _, kv := range e.Args() {
+			if !latValue(kv.List[0]) || !latValue(kv.List[1]) {
+				return false
+			}
+		}
+	}
+	return true
+}
+
 func entriesOfNoType(xs []sx.Sexp) []entry {
 	m := make([]entry, len(xs))
 	for i, kv := range xs {
@@ -512,7 +553,11 @@ func entriesOfNoType(xs []sx.Sexp) []entry {
 			n.hasCf = true
 			n.cf = entriesOfNoType(f.List[3].List)
 		}
-		m[i] = entry{key: kv.List[0].Atom, n: n}
+		key := kv.List[0].Atom
+		if kv.List[0].IsList {
+			key = "ty:" + kv.List[0].List[1].MustStr()
+		}
+		m[i] = entry{key: key, n: n}
 	}
 	return m
 }
@@ -1145,6 +1190,39 @@ func genX(g *core.G) {
 		}
 		emitFmt(g, ctx1(mode, d), v)
 	}
+	// the 22 default types: px.IsAssignable on all pairs (the relation the merged map is ordered and pruned by)
+	for _, a := range allMapKeys {
+		for _, b := range allMapKeys {
+			g.Emit("keysubx " + a + " " + b)
+		}
+	}
+	// the user's map as new(String, v, map) takes it, merged with the defaults: keys and values of every kind
+	n = 1500 * g.Scale
+	for i := 0; i < n; i++ {
+		v := conts[r.Intn(len(conts))]
+		switch r.Intn(4) {
+		case 0:
+			v = randValueX(r, pool, 3)
+		case 1:
+			v = pool[r.Intn(len(pool))]
+		}
+		nk := 1 + r.Intn(4)
+		xs := []sx.Sexp{}
+		seen := map[string]bool{}
+		for j := 0; j < nk; j++ {
+			k := allMapKeys[r.Intn(len(allMapKeys))]
+			if r.Intn(3) == 0 {
+				k = []string{"object", "type", "semver", "timespan", "scalar", "any", "arr", "hash"}[r.Intn(8)]
+			}
+			if seen[k] {
+				continue
+			}
+			seen[k] = true
+			xs = append(xs, sx.L(sx.A(k), randNodeX(r, k, 2)))
+		}
+		emitFmt(g, sx.T("mmap", xs...), v)
+	}
+	genTyped(g)
 	// per-type format maps with the keys of every kind over containers that hold every kind
 	n = 2500 * g.Scale
 	for i := 0; i < n; i++ {
@@ -1157,5 +1235,223 @@ func genX(g *core.G) {
 		}
 		es := randMapEntriesX(r, 2)
 		emitFmt(g, sx.T("map", es.List...), v)
+	}
+}
+
+// ---- format maps keyed by arbitrary (parameterised) types: op fmtt ----------------------------------------------------------------
+
+// (String() of the type, its term in the syntax of harness/lat/doc.go)
+var typedKeyPool = [][2]string{
+	{"Integer[0, 9]", "(int 0 9)"}, {"Integer[5, 20]", "(int 5 20)"}, {"Integer[-5, 5]", "(int -5 5)"}, {"Integer[0]", "(int 0 9223372036854775807)"},
+	{"Integer[default, 0]", "(int -9223372036854775808 0)"}, {"Integer[1, 1]", "(int 1 1)"}, {"Integer", "(int -9223372036854775808 9223372036854775807)"},
+	{"String[1, 5]", "(strsz 1 5)"}, {"String[2]", "(strsz 2 9223372036854775807)"}, {"String", "str"}, {"Enum['a', 'b']", "(enum f x61 x62)"}, {"Enum['a']", "(enum f x61)"},
+	{"Pattern[/a/]", "(pat x61)"}, {"Pattern[/^a.*$/]", "(pat x5e612e2a24)"},
+	{"Array[String]", "(arr str 0 9223372036854775807)"}, {"Array[Integer]", "(arr (int -9223372036854775808 9223372036854775807) 0 9223372036854775807)"},
+	{"Array[Integer[0, 9]]", "(arr (int 0 9) 0 9223372036854775807)"}, {"Array[Integer, 1, 3]", "(arr (int -9223372036854775808 9223372036854775807) 1 3)"},
+	{"Array[Scalar]", "(arr scalar 0 9223372036854775807)"}, {"Array[2, 2]", "(arr any 2 2)"},
+	{"Array[Array[Integer]]", "(arr (arr (int -9223372036854775808 9223372036854775807) 0 9223372036854775807) 0 9223372036854775807)"},
+	{"Array[Data]", "(arr data 0 9223372036854775807)"}, {"Array", "(arr any 0 9223372036854775807)"},
+	{"Hash[String, Integer]", "(hash str (int -9223372036854775808 9223372036854775807) 0 9223372036854775807)"}, {"Hash[String, Any]", "(hash str any 0 9223372036854775807)"},
+	{"Hash[Integer, String]", "(hash (int -9223372036854775808 9223372036854775807) str 0 9223372036854775807)"},
+	{"Hash[String, Integer, 1, 2]", "(hash str (int -9223372036854775808 9223372036854775807) 1 2)"},
+	{"Hash[String, Array[Integer]]", "(hash str (arr (int -9223372036854775808 9223372036854775807) 0 9223372036854775807) 0 9223372036854775807)"},
+	{"Hash", "(hash any any 0 9223372036854775807)"},
+	{"Tuple[Integer, String]", "(tup ((int -9223372036854775808 9223372036854775807) str) none)"}, {"Tuple[Integer]", "(tup ((int -9223372036854775808 9223372036854775807)) none)"},
+	{"Tuple[String, Integer, 1, 3]", "(tup (str (int -9223372036854775808 9223372036854775807)) (1 3))"},
+	{"Struct[{'a' => Integer}]", "(struct (x61 f (int -9223372036854775808 9223372036854775807)))"},
+	{"Struct[{'a' => Integer, Optional['b'] => String}]", "(struct (x61 f (int -9223372036854775808 9223372036854775807)) (x62 t str))"},
+	{"Variant[Integer, String]", "(var (int -9223372036854775808 9223372036854775807) str)"}, {"Variant[Undef, Integer[0, 9]]", "(var undef (int 0 9))"},
+	{"Optional[Integer]", "(opt (int -9223372036854775808 9223372036854775807))"}, {"Optional[String]", "(opt str)"}, {"NotUndef[String]", "(nu str)"}, {"NotUndef", "(nu any)"},
+	{"Collection[1, 3]", "(coll 1 3)"}, {"Collection[0, 2]", "(coll 0 2)"}, {"Collection", "(coll 0 9223372036854775807)"},
+	{"ScalarData", "sdata"}, {"Data", "data"}, {"RichData", "rdata"}, {"Scalar", "scalar"}, {"Numeric", "numeric"}, {"Any", "any"},
+	{"Boolean", "(bool n)"}, {"Boolean[true]", "(bool t)"}, {"Undef", "undef"}, {"Default", "default"}, {"Regexp", "(rx x)"}, {"Regexp[/a/]", "(rx x61)"},
+	{"Binary", "bin"}, {"Timespan", "(tspan -9223372036854775808 9223372036854775807)"}, {"Sensitive[String]", "(sens str)"}, {"Sensitive", "(sens any)"},
+	{"Float", "(flt (-9007199254740991 971) (9007199254740991 971))"}, {"Iterable[Integer]", "(iter (int -9223372036854775808 9223372036854775807))"},
+	{"Timespan['0-00:00:01.0', '0-00:01:00.0']", "(tspan 1000000000 60000000000)"}, {"Type", "(type any)"}, {"Object", "(obj)"},
+}
+
+type typedKey struct {
+	name string
+	term sx.Sexp
+	ty   lat.Ty
+}
+
+func typedKeys() []typedKey {
+	out := make([]typedKey, 0, len(typedKeyPool))
+	for _, p := range typedKeyPool {
+		es, err := sx.Parse(p[1])
+		if err != nil || len(es) != 1 {
+			panic(fmt.Sprintf("bad term %s", p[1]))
+		}
+		t, err := lat.ParseTy(es[0])
+		if err != nil {
+			panic(err)
+		}
+		out = append(out, typedKey{p[0], es[0], t})
+	}
+	return out
+}
+
+// a value term of the lattice model in the value syntax of this package; ok = false for the kinds that are not carried over
+func ofLatVal(v lat.Val) (sx.Sexp, bool) {
+	switch v.K {
+	case "undef":
+		return vu, true
+	case "default":
+		return vd, true
+	case "b":
+		return vb(v.B), true
+	case "i":
+		return vi(v.I), true
+	case "s":
+		return vs(v.S), utf8.ValidString(v.S)
+	case "rxv":
+		return vr(v.S), utf8.ValidString(v.S)
+	case "binv":
+		return vx(v.S), true
+	case "ts":
+		return vn(v.I), true
+	case "sv":
+		x, ok := ofLatVal(v.Vs[0])
+		return vz(x), ok
+	case "a":
+		xs := []sx.Sexp{}
+		for _, k := range v.Vs {
+			x, ok := ofLatVal(k)
+			if !ok {
+				return vu, false
+			}
+			xs = append(xs, x)
+		}
+		return va(xs...), true
+	case "h":
+		xs := []sx.Sexp{}
+		for _, e := range v.Es {
+			k, ok1 := ofLatVal(e.K)
+			x, ok2 := ofLatVal(e.V)
+			if !ok1 || !ok2 || k.Tag() == "z" {
+				return vu, false
+			}
+			xs = append(xs, k, x)
+		}
+		return vh(xs...), true
+	}
+	return vu, false
+}
+
+// the kind of directive that suits values of a key type
+func typedKeyKind(r *rand.Rand, t lat.Ty) string {
+	switch t.K {
+	case "int", "numeric", "flt":
+		return "i"
+	case "str", "strsz", "strval", "enum", "pat":
+		return "s"
+	case "arr", "tup":
+		return "a"
+	case "hash", "struct":
+		return "h"
+	case "coll":
+		return []string{"a", "h"}[r.Intn(2)]
+	case "bool":
+		return "b"
+	case "undef":
+		return "u"
+	case "default":
+		return "d"
+	case "rx":
+		return "r"
+	case "bin":
+		return "x"
+	case "tspan":
+		return "n"
+	case "sens":
+		return "z"
+	}
+	return []string{"i", "s", "a", "h", "s"}[r.Intn(5)]
+}
+
+func typedNode(r *rand.Rand, pool []typedKey, k typedKey, depth int) sx.Sexp {
+	kind := typedKeyKind(r, k.ty)
+	d := randDirective(r, kind)
+	if kind == "a" || kind == "h" {
+		// supported container formats, non-alt mostly; the letter a on a Hash-accepting key would format HashEntries, whose
+		// inferred type is modelled too (the array [k, v])
+		s := dirSpec{flags: "", width: -1, prec: -1, letter: documentedDoc[kind][r.Intn(len(documentedDoc[kind]))]}
+		if r.Intn(3) == 0 {
+			s.flags = delimFlags[r.Intn(6)]
+		}
+		if r.Intn(6) == 0 {
+			s.flags += "#"
+		}
+		if r.Intn(5) == 0 {
+			s.width = 1 + r.Intn(20)
+		}
+		d = s.String()
+	}
+	for strings.IndexByte("eEfgG", d[len(d)-1]) >= 0 {
+		d = randDirective(r, kind) // an Integer under a float letter needs fmt's digits
+	}
+	sep, sep2, cf := sx.A("-"), sx.A("-"), sx.A("-")
+	if r.Intn(4) == 0 {
+		sep = sx.Str(seps[r.Intn(len(seps))])
+	}
+	if r.Intn(4) == 0 {
+		sep2 = sx.Str(seps[r.Intn(len(seps))])
+	}
+	if depth > 0 && (kind == "a" || kind == "h") && r.Intn(2) == 0 {
+		cf = sx.L(typedEntries(r, pool, 1+r.Intn(3), depth-1)...)
+	}
+	return sx.L(sx.Str(d), sep, sep2, cf)
+}
+
+func typedEntries(r *rand.Rand, pool []typedKey, n int, depth int) []sx.Sexp {
+	xs := []sx.Sexp{}
+	seen := map[string]bool{}
+	for i := 0; i < n; i++ {
+		k := pool[r.Intn(len(pool))]
+		if seen[k.name] {
+			continue
+		}
+		seen[k.name] = true
+		xs = append(xs, sx.L(sx.L(k.term, sx.Str(k.name)), typedNode(r, pool, k, depth)))
+	}
+	return xs
+}
+
+func genTyped(g *core.G) {
+	r := g.Rng
+	pool := typedKeys()
+	lg := &lat.Gen{R: r}
+	// values: witnesses of the key types of the map (so that its entries apply), pool values, random lattice values
+	plain := []sx.Sexp{vi(0), vi(5), vi(7), vi(15), vi(-3), vi(100), vs("a"), vs("ab"), vs("hello"), vs(""), vs("abcdefg"), vb(true), vu, vd, vr("a"), vx("ab"),
+		vn(1500000000), vn(30000000000), vz(vs("s")), va(), va(vi(1), vi(2)), va(vi(5), vi(50)), va(vs("a"), vs("b")), va(vi(1), vs("a")), va(va(vi(1)), va(vi(2), vi(3))),
+		vh(), vh(vs("a"), vi(1)), vh(vs("a"), vi(1), vs("b"), vi(2)), vh(vi(1), vs("x")), vh(vs("a"), va(vi(1), vi(2))), vh(vs("a"), vs("x")), va(vh(vs("a"), vi(1)), vi(3)),
+		va(vi(0), vi(9), vu), vh(vs("a"), vi(1), vs("b"), vs("x"))}
+	n := 2500 * g.Scale
+	for i := 0; i < n; i++ {
+		ks := typedEntries(r, pool, 1+r.Intn(4), 2)
+		var v sx.Sexp
+		ok := false
+		switch r.Intn(4) {
+		case 0, 1:
+			// a witness of one of the keys
+			k := ks[r.Intn(len(ks))]
+			t, err := lat.ParseTy(k.List[0].List[0])
+			if err == nil {
+				if w, wok := lg.Witness(t); wok {
+					v, ok = ofLatVal(w)
+				}
+			}
+		case 2:
+			v, ok = ofLatVal(lg.Val(2))
+		}
+		if !ok {
+			v = plain[r.Intn(len(plain))]
+		}
+		mode := "tmmap"
+		if r.Intn(3) == 0 {
+			mode = "tmap"
+		}
+		emitFmt(g, sx.T(mode, ks...), v)
 	}
 }
